@@ -255,6 +255,13 @@ class CombinedDataHandler:
 
         non_modeled_units_list = [units_blocklisted, units_with_zero_baseline, units_with_strange_turnout_factor]
 
+        # units that are already excluded from the model (blocklisted, zero baseline, strange turnout factor) must not
+        # take part in the outlier detection either: otherwise their counts decide which *other* units get flagged
+        already_non_modeled = pd.concat(non_modeled_units_list).geographic_unit_fips
+        reporting_units = reporting_units[~reporting_units.geographic_unit_fips.isin(already_non_modeled)].reset_index(
+            drop=True
+        )
+
         if fit_turnout_outlier_model and reporting_units.shape[0] > self.n_minimum_for_outlier_detection_model:
             units_with_strange_turnout_factor_modeled = self._fit_outlier_detection_model(
                 reporting_units, "turnout_factor", outlier_z_threshold
